@@ -90,6 +90,26 @@ def oracle_fn(ctx, item, s):
                 fails.append({"what": f"DataFrame detect_type {tt} differs from the column's {t1}", "class": "frame-vs-column", "typeset": "CompleteSet", "backend": "pandas"})
         except Exception:  # noqa
             pass
+        # columns of one dtype with different contents (an all-missing one among them), in both orders: every column is
+        # judged by its own cells
+        if len(s) <= 8:
+            try:
+                blank = pd.Series([None] * len(s), dtype=s.dtype)
+            except Exception:  # noqa
+                blank = None
+            if blank is not None and str(blank.dtype) == str(s.dtype):
+                for cols in (("a", "b"), ("b", "a")):
+                    df2 = pd.DataFrame({c: (s.reset_index(drop=True) if c == "a" else blank) for c in cols})
+                    try:
+                        tt = ts.detect_type(df2)
+                        for c in cols:
+                            tc = ts.detect_type(df2[c])
+                            if tt[c] is not tc:
+                                fails.append({"what": f"DataFrame with columns {list(cols)} of dtype {s.dtype} (b all missing): detect_type(df)[{c!r}] = {tt[c]} but detect_type(df[{c!r}]) = {tc}",
+                                              "class": "frame-vs-column:same-dtype", "typeset": "CompleteSet", "backend": "pandas"})
+                                break
+                    except Exception:  # noqa
+                        pass
     return fails
 
 
@@ -111,6 +131,13 @@ def replay(path):
     s = streams.materialise({"recipe": r["recipe"]})
     name = r.get("typeset", "CompleteSet")
     ts = streams.typeset_from_names(name[4:].split(",")) if name.startswith("sub:") else streams.shipped_typesets()[name]
+    if r.get("class", "").startswith("frame-vs-column"):
+        with warnings.catch_warnings():
+            warnings.simplefilter("ignore")
+            f = [x for x in oracle_fn({"typesets": dict(streams.shipped_typesets()), "frames": True, "lists": False, "numpy": False}, {"recipe": r["recipe"]}, s)
+                 if x["class"].startswith("frame-vs-column")]
+        print("replay:", [x["what"] for x in f] if f else "property holds on this input")
+        return 1 if f else 0
     x = {"pandas": s, "list": list(s), "numpy": s.to_numpy()}[r.get("backend", "pandas")]
     f = check_one(ts, name, x, r.get("backend", "pandas"))
     print("replay:", f if f else "property holds on this input")
